@@ -77,3 +77,25 @@ def run(F, R):
             if si[0] == "enum" and si[1][1] == "std::option::Option" and val == "None":
                 none_edges.append(k9.kexpr(h, "c:" + si[1][0])[:80])
         R.check(bool(none_edges), "C32.R3", f"{F.bodies[h.path]['name']}:cross#{n}", "a Cross join is built outside the 'no connecting edge found' branch", h.loc(bb), dict(none_edge_of=none_edges[-1:] ))
+    # ---- R4: a qualified column reference names one relation
+    R.rule("C32.R4", "K3 guard on an insertion", "extract_columns_recursive adds the bare column name only when the reference has no qualifier")
+    ec = F.fn("optimizer::rules::join_reorder::JoinReorder::extract_columns_recursive")
+    COL = "planner::schema::Column"
+    ins = [c for c in ec.calls() if c.name.rsplit("::", 1)[-1] == "insert" and "HashSet" in (c.self_ty or "")]
+    R.floor("C32.R4", "column-name insertions in extract_columns_recursive", len(ins), 2)
+    from c15 import controlling_switches
+    nb = 0
+    for c in sorted(ins, key=lambda c: (c.line, c.bb)):
+        qualified = bool(derives_from(ec, [c.args[1]], lambda k, x: (k == "call" and x.name.rsplit("::", 1)[-1] in ("format", "must_use") and x) or None))
+        bare = (not qualified) and bool(derives_from(ec, [c.args[1]], lambda k, x: (k == "place" and ("name", COL) in place_fields(x) and x) or None))
+        if not bare:
+            continue
+        nb += 1
+        on_none = False
+        for sb, val in controlling_switches(ec, c.bb):
+            si = ec.switch_info(sb)
+            if si[0] == "enum" and si[1][1] == "std::option::Option" and str(val) == "None" and \
+                    derives_from(ec, ["c:" + si[1][0]], lambda k, x: (k == "place" and ("relation", COL) in place_fields(x) and x) or None):
+                on_none = True
+        R.check(on_none, "C32.R4", f"extract_columns_recursive:bare-name-insert#{nb}", "a qualified column reference also contributes its bare name: when that name exists in several relations (self-join aliases, a shared `id`) the side of an equality no longer resolves to exactly one relation, the join-graph edge is dropped, the graph falls apart and the greedy fallback emits a cross join", ec.loc(c.bb), dict())
+    R.floor("C32.R4", "bare-name insertions", nb, 1)
